@@ -432,7 +432,15 @@ def header_agreement(facts):
         out.append(Obl('C15.R3', 'WOPN_SaveBankToMem', 'flag fields disjoint', sv.loc, 'discharged' if (m1 & m2) == 0 else 'finding', why='bit masks %#x and %#x' % (m1, m2)))
     def meta(fn, reader):
         res = {}
+        # the function itself and the helpers of the same file it hands its plain cursor to (offsets are then the same)
+        scope = [fn]
         for b, j, st in fn.cfg.stmts():
+            for x in calls_in(st['s']):
+                cf = facts.fns.get(callee_name(x))
+                if cf and cf[0].file == fn.file and cf[0].tree is not None and cf[0] not in scope and \
+                        any(strip(a).get('k') == 'DeclRefExpr' and (strip(a).get('t') or {}).get('p') for a in x.get('a') or []):
+                    scope.append(cf[0])
+        for b, j, st in [s_ for f_ in scope for s_ in f_.cfg.stmts()]:
             for x in walk(st['s']):
                 ap = assign_parts(x)
                 if ap:
